@@ -362,7 +362,7 @@ func c06R5(c *Ctx, rule string) {
 		r := c.Run(&engine.Automaton{Fn: fn, Tracks: tracks})
 		n := 0
 		for _, ret := range engine.ReturnsOf(fn) {
-			if len(ret.Results) == 1 && c.P.D(ret.Results[0]) == "nil" {
+			if len(ret.Results) == 1 && c.P.D(engine.ReturnValues(ret)[0]) == "nil" {
 				n++
 				c.RequireAt(r, rule, "persistVote:nil-only-after-both-writes", ret, "return nil only after both keys were written (term=p1, candidate=p2) and both results checked",
 					func(v engine.View) bool { return v.Seen("w1") && v.Seen("w2") && v.F("e1") && v.F("e2") })
